@@ -90,6 +90,36 @@ CodeOut(alts, wrong) ==
            W == Winners({rs[i] : i \in 1..Len(fl)})
        IN Res(Shown(rs[First(rs, LAMBDA r : r \in W)], wrong))
 
+(* ---- author notations (docs/item_grader.md, "Specifying Answers").  `answers` is one item or a tuple of items; an
+   item is a bare expect value (credit 1, no message) or a dictionary with `expect` and optional `grade_decimal` and
+   `msg`; an expect entry is one value or a tuple of values.  Canon gives the alternatives a notation denotes.
+     notation  [t |-> "single", item |-> it]  |  [t |-> "tuple", items |-> <<it, ...>>]
+     item      [t |-> "bare" | "dict", expect |-> e, hasCredit, credit, hasMsg, msg]   (has* are FALSE for "bare")
+     expect    [t |-> "one", vs |-> <<v>>]  |  [t |-> "many", vs |-> <<v, ...>>] *)
+CanonItem(it) == [credit |-> IF it.t = "dict" /\ it.hasCredit THEN it.credit ELSE One,
+                  msg |-> IF it.t = "dict" /\ it.hasMsg THEN it.msg ELSE NoMsg,
+                  vals |-> it.expect.vs]
+Canon(n) == IF n.t = "single" THEN <<CanonItem(n.item)>> ELSE [i \in 1..Len(n.items) |-> CanonItem(n.items[i])]
+WellFormedItem(it) == /\ it.t \in {"bare", "dict"}
+                      /\ it.expect.t \in {"one", "many"} /\ Len(it.expect.vs) >= 1
+                      /\ it.expect.t = "one" => Len(it.expect.vs) = 1
+                      /\ it.t = "bare" => ~it.hasCredit /\ ~it.hasMsg
+\* a bare tuple in the place of `answers` itself is a tuple of alternatives, not one alternative with several values
+WellFormedNotation(n) == IF n.t = "single" THEN WellFormedItem(n.item) /\ ~(n.item.t = "bare" /\ n.item.expect.t = "many")
+                         ELSE n.t = "tuple" /\ Len(n.items) >= 1 /\ \A i \in 1..Len(n.items) : WellFormedItem(n.items[i])
+\* every way of writing one alternative
+ExpectNotations(vals) == {[t |-> "many", vs |-> vals]} \cup (IF Len(vals) = 1 THEN {[t |-> "one", vs |-> vals]} ELSE {})
+ItemNotations(a) ==
+  {[t |-> "dict", expect |-> e, hasCredit |-> hc, credit |-> IF hc THEN a.credit ELSE One, hasMsg |-> hm, msg |-> IF hm THEN a.msg ELSE NoMsg] :
+       e \in ExpectNotations(a.vals), hc \in (IF a.credit = One THEN BOOLEAN ELSE {TRUE}), hm \in (IF a.msg = NoMsg THEN BOOLEAN ELSE {TRUE})}
+  \cup (IF a.credit = One /\ a.msg = NoMsg
+        THEN {[t |-> "bare", expect |-> e, hasCredit |-> FALSE, credit |-> One, hasMsg |-> FALSE, msg |-> NoMsg] : e \in ExpectNotations(a.vals)}
+        ELSE {})
+RECURSIVE ItemSeqs(_, _)
+ItemSeqs(alts, i) == IF i > Len(alts) THEN {<<>>} ELSE {<<x>> \o r : x \in ItemNotations(alts[i]), r \in ItemSeqs(alts, i + 1)}
+Notations(alts) == {[t |-> "tuple", items |-> s] : s \in ItemSeqs(alts, 1)}
+                   \cup (IF Len(alts) = 1 THEN {n \in {[t |-> "single", item |-> x] : x \in ItemNotations(alts[1])} : WellFormedNotation(n)} ELSE {})
+
 (* ---- transformations used by the laws *)
 Permute(alts, p) == [i \in 1..Len(alts) |-> alts[p[i]]]                      \* p: permutation of 1..Len(alts)
 Reverse(s) == [i \in 1..Len(s) |-> s[Len(s) + 1 - i]]
@@ -129,6 +159,8 @@ LawDuplicate(alts, w) == \A i \in 1..Len(alts) : AllowedOut(Append(alts, alts[i]
 \* a single alternative with a single value returns its own response
 LawSingle(alts, w) == Len(alts) = 1 /\ Len(alts[1].vals) = 1 /\ Raising(alts) = {} =>
                         AllowedOut(alts, w) = {Res(Shown(Response(alts[1], alts[1].vals[1]), w))}
+\* every notation of the same alternatives denotes them (so the outcome cannot depend on how the author wrote them)
+LawNotation(alts, w) == \A n \in Notations(alts) : WellFormedNotation(n) /\ Canon(n) = alts
 \* the implementation-shaped reference refines the property-level specification
 LawCodeRefines(alts, w) == CodeOut(alts, w) \in StrictOut(alts, w)
 LawCodeCalls(alts, w) == LET cc == CodeCalls(alts) IN
